@@ -481,3 +481,45 @@ def import_repo():
     if not p.startswith(os.path.abspath(REPO)):
         raise MachineryError("productmd imported from %s, not from %s" % (p, REPO))
     return productmd
+
+
+def file_cycle(obj, text, what, name="manifest.json", dump_kw=None, reload=None):
+    """The write/read cycle through real files: dump(path) onto a fresh path, onto a path that already holds a LONGER file
+    (the new file must replace it, not overlay it), and into an open file object; each time the bytes on disk must equal
+    dumps() and, when `reload` is given (a callable path -> text of the re-read object), reading the file back reproduces it."""
+    import shutil
+    import tempfile
+    fails = []
+    kw = dump_kw or {}
+    d = tempfile.mkdtemp(prefix="verif-file-")
+    try:
+        p = os.path.join(d, name)
+        for step in ("fresh path", "path holding a longer file", "open file object"):
+            if step == "path holding a longer file":
+                with open(p, "w") as fh:
+                    fh.write(text + "\n" + text[: max(40, len(text) // 3)] + "\n# trailing remainder of the previous, longer file\n")
+            try:
+                if step == "open file object":
+                    with open(p, "w") as fh:
+                        obj.dump(fh, **kw)
+                else:
+                    obj.dump(p, **kw)
+            except Exception as exc:
+                fails.append("%s: dump to %s raised %s: %s" % (what, step, type(exc).__name__, exc))
+                continue
+            with open(p) as fh:
+                on_disk = fh.read()
+            if on_disk != text:
+                fails.append("%s: dump to %s left %d bytes on disk that differ from dumps() (%d bytes)" % (what, step, len(on_disk), len(text)))
+                continue
+            if reload is not None:
+                try:
+                    back = reload(p)
+                except Exception as exc:
+                    fails.append("%s: file written to %s cannot be read back: %s: %s" % (what, step, type(exc).__name__, exc))
+                    continue
+                if back != text:
+                    fails.append("%s: file written to %s reads back differently" % (what, step))
+    finally:
+        shutil.rmtree(d, ignore_errors=True)
+    return fails
